@@ -280,6 +280,10 @@ def gen_cases(tier, seed):
             # deeper nesting, longer hook lists, more events than the default shape
             dd_ = D.wf_random(rng, D.Shape(max_depth=5, max_hooks=4, max_leaves=10, max_events=5))
             cases.append({'id': f'deep{k}', 'stream': 'deep', 'feature': rng.random() < 0.3, 'def': dd_})
+        if k % 4 == 1:
+            rd_ = D.repeat_variant(d, rng)
+            if rd_ is not None:
+                cases.append({'id': f'rep{k}', 'stream': 'repeat', 'feature': rng.random() < 0.3, 'def': rd_})
         if k % 5 == 2:
             cd = D.collide_variant(d, rng)
             if cd is not None:
